@@ -4,6 +4,7 @@ TIER=${1:-quick}; shift 2>/dev/null
 cd "$(dirname "$(readlink -f "$0")")"
 IDS=${*:-$(python3 -c "import json;print(' '.join(c['property_id'] for c in json.load(open('MANIFEST.json'))['checks']))")}
 cd "$(dirname "$(readlink -f "$0")")"
+mkdir -p "${RUNLOG:-/var/tmp/scratch}"
 for p in $IDS; do
   s=$(date +%s)
   /venv/bin/python -m mcx check $p --tier $TIER > ${RUNLOG:-/var/tmp/scratch}/run_$p.log 2>&1; rc=$?
